@@ -945,7 +945,7 @@ main(int argc, char **argv) {
   build_streams();
   base = mmap(NULL, sizeof(struct result) * NSTREAMS + sizeof(int) * NSTREAMS, PROT_READ | PROT_WRITE, MAP_SHARED | MAP_ANONYMOUS, -1, 0);
   base_ok = (int *)(base + NSTREAMS);
-  struct space sp[48];
+  struct space sp[64];
   int nsp = 0;
   for (int i = 0; i < nstreams; i++)
     for (int k = 0; k <= (T ? 3 : 2); k++) {
@@ -955,6 +955,10 @@ main(int argc, char **argv) {
         continue;
       if (k == 2 && !T && !strncmp(streams[i].name, "ws-line", 7))
         continue; /* long handshake lines: every single cut and the byte-wise delivery in quick, pairs in thorough */
+      if (nsp >= 64) {
+        fprintf(stderr, "VX-HARNESS: c05-space-table-overflow\n");
+        abort();
+      }
       snprintf(sp[nsp].name, sizeof sp[nsp].name, "cuts:%s:k=%d", streams[i].name, k);
       sp[nsp].si = i;
       sp[nsp].k = k;
